@@ -105,6 +105,21 @@ CHECKS = {
              'and validated event by event by TLC; an exception escaping event() is an unmatched event.',
         note='The scenario of a recorded run is derived from the observation (solution counts from the real tracer). '
              'Physical correctness of the signals is C01/C03/C07 material and not examined.'),
+    'C15': dict(
+        spec='EarthRel.tla', design='12.4',
+        technique='TLA+ spec EarthRel.tla (integer-radius shell dispatch table + relation algebra of slant-depth configurations) '
+                  'checked with TLC; its behaviours replayed on PREM and CoreMantleCrustModel',
+        text='EarthRel.tla part A: Shell(r) over integer radii (metres) with half-open shells; TLC checks ShellsPartition and '
+             'ProbeShells; every Probe (radii one below / at / one above every boundary, interior, surface, outside; five input '
+             'forms) is executed on density() and each value compared with the published law of the predicted shell, 0 outside, '
+             'shape preserved.  Part B: slant-depth configurations [endpoint, zenith index, quarter turns, direction length] with '
+             'ScaleDir, Turn (unchanged) and Dip (not smaller), Consistent (dips = zen - zen0); replayed with two steps; chords '
+             'from above the surface that do not point below the horizon give exactly 0.',
+        note='Decides the piecewise dispatch (incl. half-open boundaries, zero outside, scalar = array), independence of the '
+             'direction length and of azimuth (quarter turns), zero for chords that miss the Earth, monotone growth on a lattice '
+             'of ten zenith angles. Relations are compared up to one end cell of the trapezoid sum (100 x step x 3 g/cm^2), the '
+             'discretisation error the property allows. Not decided: accuracy and convergence of the sum against the true chord '
+             'integral (numerical).'),
     'C17': dict(
         spec='NoiseRel.tla', design='12.3',
         technique='TLA+ spec NoiseRel.tla of noise objects as (basis, window, delay) with symbolic values, checked with TLC; its '
@@ -211,7 +226,6 @@ CHECKS = {
 
 NOT_APPLICABLE = {
     'C01': 'purely numerical (closed-form integrals / root search against a continuous index profile); no discrete state for a TLA+ model, see DESIGN.md section 6',
-    'C15': 'purely numerical (quadrature accuracy of a line integral); no state to model',
     'C20': 'static property of the source text against library versions; nothing evolves (the import defect D0 it describes was repaired as a precondition, see known_findings.json)',
 }
 NOT_BUILT = 'specification module not built yet in this round (see DESIGN.md section 9); not claimed rather than claimed with a hollow check'
